@@ -37,6 +37,7 @@ class Result:
     classes: List[str] = field(default_factory=list)  # histogram keys for this case
     nontrivial: bool = False
     info: Any = None  # optional observation to store with a replay file
+    expensive: bool = False  # the failing run was very slow (e.g. a hang judged by its bound): shrink very little
 
     def fail(self, clause: str, message: str, data: Any = None):
         self.violations.append(Viol(clause, message, data))
